@@ -89,32 +89,85 @@ def native_run(cpp_body, cfg='default', extra_flags=()):
                 reproduced=(any(l.startswith('FAIL') for l in out.splitlines()) or rc not in (0,)))
 
 
+def extract_witness(o, trace):
+    seq, last = parse_trace(trace)
+    w = dict(scalars={})
+    for k, v in last.items():
+        if not k.startswith(o.entry + '::'):
+            continue
+        name = k.split('::', 1)[1]
+        if '[' in name or name.startswith('__nd_') or name.startswith('return_value') or name.startswith('goto_symex') or name.startswith('tmp_'):
+            continue
+        iv = to_int(v)
+        if iv is None:
+            m = re.match(r"^'(.)'$", v)
+            if m:
+                iv = ord(m.group(1))
+        if iv is not None:
+            w['scalars'][name] = iv
+    n = o.bufn or 64
+    for nm in ('g_buf', 'g_buf2'):
+        vals = array_values(last, nm, n)
+        # characters are printed as 'x' by cbmc: collect those too
+        for k, v in last.items():
+            m = re.match(r'^' + nm + r'\[(\d+)\w*\]$', k)
+            if m and to_int(v) is None:
+                mm = re.match(r"^'(\\?.)'$", v)
+                if mm:
+                    ch = mm.group(1)
+                    vals[int(m.group(1))] = ord(ch[-1]) if len(ch) == 1 else {'n': 10, 't': 9, 'r': 13, '0': 0, '\\': 92, "'": 39}.get(ch[-1], ord(ch[-1]))
+        w[nm] = vals
+    return w
+
+
 def handle_failure(prop, o, r):
-    seq, last = parse_trace(r.get('trace', ''))
+    from . import native
     d = ensure_dir(os.path.join(VERIF, 'replays', prop))
     path = os.path.join(d, re.sub(r'[^A-Za-z0-9_.@-]', '_', o.name) + '.json')
-    inputs = {k: v for k, v in last.items() if k.startswith(o.entry + '::')}
+    w = extract_witness(o, r.get('trace', ''))
     rp = dict(property=prop, obligation=o.name, grade=o.grade, config=o.cfg,
               failed_cbmc_properties=['%s: %s' % (p[0], p[1]) for p in r.get('real_failures', r.get('failed', []))][:20],
-              inputs={k.split('::', 1)[1]: v for k, v in inputs.items()},
-              cbmc_cmd=r.get('cmd'), tu=r.get('tu'), verifier_output=r.get('out_tail', '')[-3000:],
-              reproduced=False, native=None, path=path, witness=None)
-    fn = getattr(o, 'replay_fn', None)
-    if fn is not None:
-        try:
-            body, witness = fn(last, seq)
-            rp['witness'] = witness
-            if body:
-                nat = native_run(body, o.cfg if o.cfg in ('avx512', 'ssse3') else 'default')
-                rp['native'] = nat
-                rp['reproduced'] = bool(nat.get('reproduced'))
-                rp['native_main'] = body
-        except Exception as e:   # replay is best effort; the violation stands
-            rp['native'] = dict(ok=False, error='replay construction failed: %r' % (e,))
+              witness=w, cbmc_cmd=r.get('cmd'), tu=r.get('tu'), verifier_output=r.get('out_tail', '')[-3000:],
+              reproduced=False, native=None, path=path)
+    info = r.get('_info') or {}
+    try:
+        fn = getattr(o, 'replay_fn', None)
+        if fn is not None:
+            src = fn(w, o, info)
+        else:
+            src = native.program(o, info, w, spec_lines=info.get('spec_lines'), fn_node=info.get('fn_node'),
+                                 harness_text=info.get('harness_text'))
+        if src:
+            nat = native_run_src(src, o.cfg if o.cfg in ('avx512', 'ssse3') else 'default')
+            rp['native'] = {k: v for k, v in nat.items()}
+            rp['reproduced'] = bool(nat.get('reproduced'))
+            rp['native_src'] = src
+    except Exception as e:   # replay is best effort; the violation stands
+        import traceback
+        rp['native'] = dict(ok=False, error='replay construction failed: %r %s' % (e, traceback.format_exc()[-800:]))
     rp['replay_cmd'] = './check --replay ' + path
     with open(path, 'w') as f:
         json.dump(rp, f, indent=1)
     return rp
+
+
+def native_run_src(src_text, cfg='default'):
+    d = ensure_dir(os.path.join(BUILD, 'replay'))
+    key = sha(src_text + cfg)[:16]
+    src = os.path.join(d, 'r_%s.cpp' % key)
+    exe = os.path.join(d, 'r_%s.bin' % key)
+    open(src, 'w').write(src_text)
+    fl = [f for f in A.flags(cfg)]
+    rc, out, err, _ = run(['g++'] + fl + ['-fno-access-control', '-w', src, '-o', exe], timeout=600)
+    if rc != 0:
+        return dict(ok=False, error='native replay did not compile: ' + err[-1500:], src=src)
+    rc, out, err, _ = run([exe], timeout=60)
+    try:
+        os.remove(exe)
+    except OSError:
+        pass
+    return dict(ok=True, rc=rc, out=out[-4000:], err=err[-1000:], src=src,
+                reproduced=any(l.startswith('FAIL') for l in out.splitlines()))
 
 
 def replay_file(path):
@@ -122,8 +175,8 @@ def replay_file(path):
     print('obligation', rp['obligation'], 'property', rp['property'])
     print('failed:', *rp.get('failed_cbmc_properties', []), sep='\n  ')
     print('witness:', rp.get('witness'))
-    if rp.get('native_main'):
-        nat = native_run(rp['native_main'], rp.get('config') if rp.get('config') in ('avx512', 'ssse3') else 'default')
+    if rp.get('native_src'):
+        nat = native_run_src(rp['native_src'], rp.get('config') if rp.get('config') in ('avx512', 'ssse3') else 'default')
         print(nat.get('out', ''), nat.get('error', ''))
         return 1 if nat.get('reproduced') else 0
     print('no native replay available for this obligation (no-failing-input-found); verifier output:')
